@@ -10,6 +10,7 @@ import z3
 OBL_TIMEOUT_MS = int(os.environ.get("PYVC_OBL_TIMEOUT_MS", "90000"))
 CVC5_TIMEOUT_S = int(os.environ.get("PYVC_CVC5_TIMEOUT_S", "60"))
 FIRST_TIMEOUT_MS = int(os.environ.get("PYVC_FIRST_TIMEOUT_MS", "5000"))
+FRESH_TIMEOUT_MS = int(os.environ.get("PYVC_FRESH_TIMEOUT_MS", "30000"))
 STATS = {"z3": 0, "cvc5": 0, "z3_time": 0.0, "cvc5_time": 0.0, "unknown": 0}
 
 
@@ -34,19 +35,33 @@ def check_with_fallback(solver: z3.Solver, negated_goal):
             smt2 = None
     solver_used = "z3"
     if r == z3.unknown and smt2 is not None:
+        # the incremental solver gave up: the same query on FRESH solvers (observed: queries that time out in the
+        # incremental context are decided in well under a second by a fresh z3), then an external portfolio
         t1 = time.time()
-        res = run_cvc5(smt2, CVC5_TIMEOUT_S)
+        try:
+            fresh = z3.Solver()
+            fresh.set("timeout", FRESH_TIMEOUT_MS)
+            fresh.from_string(smt2)
+            r2 = fresh.check()
+        except z3.Z3Exception:
+            r2 = z3.unknown
+        if r2 == z3.unsat:
+            solver.pop()
+            solver.set("timeout", 5000)
+            STATS["z3"] += 1
+            return "unsat", None, "z3-fresh", None
+        if r2 == z3.sat and _model_ok(fresh.model(), negated_goal):
+            m2 = fresh.model()
+            solver.pop()
+            solver.set("timeout", 5000)
+            return "sat", m2, "z3-fresh", smt2
+        res, who = run_portfolio(smt2, CVC5_TIMEOUT_S)
         STATS["cvc5"] += 1
         STATS["cvc5_time"] += time.time() - t1
         if res in ("unsat", "sat"):
             solver.pop()
             solver.set("timeout", 5000)
-            return res, None, "cvc5", smt2
-        solver.set("timeout", OBL_TIMEOUT_MS)
-        r = solver.check()
-        model = solver.model() if r == z3.sat else None
-        if r == z3.sat and not _model_ok(model, negated_goal):
-            r, model = z3.unknown, None
+            return res, None, who, smt2
     solver.pop()
     solver.set("timeout", 5000)
     STATS["z3"] += 1
@@ -57,6 +72,46 @@ def check_with_fallback(solver: z3.Solver, negated_goal):
         return "sat", model, solver_used, smt2
     STATS["unknown"] += 1
     return "unknown", None, "z3+cvc5", smt2
+
+
+def run_portfolio(smt2: str, timeout_s: int):
+    """cvc5 (default and --enum-inst) and z3 4.8 on the dumped query, concurrently; the first definitive answer wins"""
+    import time
+    text = smt2 if "(set-logic" in smt2 else "(set-logic ALL)\n" + smt2
+    with tempfile.NamedTemporaryFile("w", suffix=".smt2", delete=False, dir=_scratch()) as fh:
+        fh.write(text)
+        path = fh.name
+    cmds = {"cvc5": ["/usr/bin/cvc5", "--strings-exp", f"--tlimit={timeout_s * 1000}", path],
+            "cvc5-enum-inst": ["/usr/bin/cvc5", "--strings-exp", "--enum-inst", f"--tlimit={timeout_s * 1000}", path],
+            "z3-4.8": ["/usr/bin/z3", f"-T:{timeout_s}", path]}
+    procs = {}
+    try:
+        for k, c in cmds.items():
+            try:
+                procs[k] = subprocess.Popen(c, stdout=subprocess.PIPE, stderr=subprocess.DEVNULL, text=True)
+            except OSError:
+                pass
+        deadline = time.time() + timeout_s + 5
+        answer = ("unknown", "portfolio")
+        pending = dict(procs)
+        while pending and time.time() < deadline:
+            for k, p in list(pending.items()):
+                if p.poll() is not None:
+                    out = (p.stdout.read() or "").strip().splitlines()
+                    first = out[0] if out else ""
+                    del pending[k]
+                    if first in ("sat", "unsat"):
+                        return first, k
+            time.sleep(0.05)
+        return answer
+    finally:
+        for p in procs.values():
+            if p.poll() is None:
+                p.kill()
+        try:
+            os.unlink(path)
+        except OSError:
+            pass
 
 
 def _model_ok(model, negated_goal) -> bool:
